@@ -34,6 +34,9 @@ EXPLANATION = ("Proved (Lean, unbounded): Token::Match's documented language, th
                "Inserting / removing comments and joining / splitting lines have NO theorem: comment tokens take part in combineOperators "
                "(proved counterexample comment_line_insertion_not_neutral = open finding F05d, valid C++); these families are sampled on "
                "the real lexer and by CLI pairs. "
+               "Definition order: a check of the shape `flatMap verdict` over the definitions is Perm-invariant (perFunction_perm_invariant); "
+               "CheckExceptionSafety::nothrowThrows is modelled, proved invariant and tied on C++ call-graph programs; a translator guard lists the "
+               "containers check entry points carry across functions (fail closed on a new one). "
                "Only sampled (CLI metamorphic pairs, never part of a proof): everything behind the token stream - dependence on names "
                "through ordered containers keyed by name, str() comparisons outside patterns, name-prefix tests, symbol-database "
                "definition order, value flow. Token classification (tokType/isName/varId) is assumed unchanged by the renaming.")
